@@ -63,3 +63,26 @@ func TestVerifBreakerAdjustIntervalCarries(t *testing.T) {
 		t.Fatalf("limit %d per 1s, then per 2s: %d calls admitted within milliseconds", limit, admitted)
 	}
 }
+
+// The carry (c6b9a1a) summed the old window as it was when it was last used (reported by the round-6 C20 sub-agent):
+// calls that aged out long ago were carried into the new window as if they had just happened, and an idle breaker
+// refused for a whole new interval after an Adjust although no call falls inside either window.
+func TestVerifBreakerAdjustDoesNotCarryAgedCalls(t *testing.T) {
+	const limit = 2
+	b, err := NewOutboundBreaker(limit, 200*time.Millisecond)
+	if err != nil {
+		t.Fatal(err)
+	}
+	for i := 0; i < limit; i++ {
+		if !b.Zap() {
+			t.Fatal("fresh breaker refuses")
+		}
+	}
+	time.Sleep(500 * time.Millisecond) // more than two intervals: nothing is in the window
+	if err := b.Adjust(limit, 400*time.Millisecond); err != nil {
+		t.Fatal(err)
+	}
+	if !b.Zap() {
+		t.Fatalf("after 500ms of silence (interval 200ms) an Adjust to 400ms made the breaker refuse")
+	}
+}
